@@ -12,12 +12,20 @@ Decided:
          or it is a ``getattr`` with default;
   R15.b  pass-through: every ``return`` yields the ``next()`` value (or a ``next(...)`` call) -- never a new
          object; body/status mutators on that value (response/data/status/status_code stores, set_data)
-         are dominated by a test on the request (content negotiation / explicit trigger);
+         are dominated by a branch whose test reads the request (directly, through a named temporary or
+         through a flag set under such tests) and whose other side reaches a return without any mutation
+         (content negotiation / explicit trigger -- a validity test whose other side raises does not count);
   R15.c  handlers around ``next()`` re-raise on every path (profiler: unless raise_exc was switched off,
          default True);
-  R15.d  gzip bookkeeping: where the body is replaced, Content-Length (len of the same compressed value)
-         and Content-Encoding 'gzip' are assigned on every path, Vary: Accept-Encoding is added before the
-         Accept-Encoding test, the compressed value comes from gzip_bytes(resp.data, ...).
+  R15.d  gzip bookkeeping: where the body is replaced (``resp.response = [v]``, or ``set_data(v)`` / ``.data = v``
+         whose Content-Length bookkeeping is read off the pinned BaseResponse.set_data), Content-Length is
+         ``len`` of the same value and Content-Encoding 'gzip' is assigned on every path, Vary: Accept-Encoding is
+         added on every path that inspects Accept-Encoding, the value is gzip_bytes(resp.data, ...), the path
+         condition has the quality test of gzip, no previous encoding, not streamed and a size comparison that
+         does not select the larger body.  Named temporaries, inlined predicate helpers (flag form) and
+         module-level constants are looked through (diffcon.Locals, cfg flag expansion, repo.try_fold).
+Each middleware function and the gzip group run in isolation: a gap or internal error in one is reported as
+ANALYSIS-ERROR without hiding the violations of the others.
 Declined: losslessness of compression / equality of decoded bodies (values).
 """
 import ast
